@@ -181,6 +181,8 @@ class RsEmitter:
             return self.view_ty(t)[0]
         if k == "oref" and not t[4]:
             return ("&mut %s" if t[2] else "&%s") % t[1]
+        if k == "obox" and not t[2]:
+            return "Box<%s>" % t[1]          # dropped when the foreign callback returns: it was given for good
         raise Unsupported(t)
 
     def callback(self, t, v, pre, post, m, pname):
